@@ -1,7 +1,7 @@
 // IDEA: conformance (C09), dev-profile obligations of the helpers on fully symbolic inputs (C20).
 // Decomposition (the direct query runs out of memory: Euclid loop + 34 multipliers mod 65537 per block):
 //   L  idea_leaf_mul      mul(a,b) == a*b mod 65537 with 0 = 2^16, add == + mod 2^16            (all 2^32 inputs)
-//   L  idea_leaf_inv      mul(k, mul_inv(k)) == 1, add_inv(k) == -k                             (all 2^16 inputs)
+//   L  idea_inv_r0..r15   mul(k, mul_inv(k)) == 1 (inv16.rs), idea_leaf_addinv: add_inv(k) == -k  (all 2^16 inputs)
 //   D  idea_expand        expand_key == 25-bit rotation schedule                                (all 2^128 keys)
 //   W  idea_invert_w      invert_sub_keys placement, mul_inv uninterpreted                      (arbitrary enc_keys)
 //   W  idea_new_w         Idea::new = expand + invert, mul_inv uninterpreted                    (all keys)
@@ -38,34 +38,15 @@ verif_harness! {
     }
 }
 
-//@ harness name=idea_leaf_inv prop=C09,C01,C20 tier=quick bits=16 est=200 desc="L: mul(k, mul_inv(k)) == 1 under the oracle's multiplication (i.e. mul_inv is THE inverse mod 65537, 0 = 2^16) and add_inv(k) == -k mod 2^16, add(k, add_inv(k)) == 0, for all 2^16 k; Euclid loop terminates within 9 iterations without overflow / division by zero"
+//@ harness name=idea_leaf_addinv prop=C09,C01,C20 tier=quick bits=16 est=20 desc="L: add_inv(k) == -k mod 2^16 and add(k, add_inv(k)) == 0 for all 2^16 k (the multiplicative inverse lemma mul(k, mul_inv(k)) == 1 is split over 16 argument ranges in inv16.rs: one query over all 2^16 k -- Euclid loop, 40 32-bit dividers -- finishes neither with CaDiCaL nor with Kissat in 900 s)"
 verif_harness! {
-    name: idea_leaf_inv,
+    name: idea_leaf_addinv,
     bytes: 2,
-    unwind: 11,
     prop: |inp| {
         let k = take_u16(inp, 0);
         let c = blank();
-        let v = c.mul_inv(k);
-        // the crate's own mul is used for the product: idea_leaf_mul proves it equal to the oracle's multiplication
-        // mod 65537 on all inputs (the oracle's u64 remainder makes this query needlessly hard)
-        vcheck!(c.mul(k, v) == 1);
         vcheck!(c.add_inv(k) == r::add_inv(k));
         vcheck!(c.add(k, c.add_inv(k)) == 0);
-        Some(true)
-    }
-}
-
-//@ harness name=idea_leaf_inv_k prop=C09,C20 tier=quick bits=16 est=200 solver=kissat desc="TEMP kissat variant"
-verif_harness! {
-    name: idea_leaf_inv_k,
-    bytes: 2,
-    unwind: 11,
-    prop: |inp| {
-        let k = take_u16(inp, 0);
-        let c = blank();
-        let v = c.mul_inv(k);
-        vcheck!(c.mul(k, v) == 1);
         Some(true)
     }
 }
